@@ -2,7 +2,7 @@
 import json, os, sys, time
 from .common import *
 from .engine import *
-from . import cratebuild, corpus_ctor, corpus_extra, corpus_serde
+from . import cratebuild, corpus_ctor, corpus_extra, corpus_serde, corpus_arb
 
 ASSUME_COMMON = ["lowercase/uppercase meaning = this toolchain's str::to_lowercase/to_uppercase",
                  "NaN vs bound validators: either verdict accepted (DESIGN section 3)",
@@ -12,7 +12,7 @@ ASSUME_COMMON = ["lowercase/uppercase meaning = this toolchain's str::to_lowerca
 
 def ctor_decls(tier, seed):
     return (corpus_ctor.build(tier, seed) + corpus_extra.build_perm(tier, seed) + corpus_extra.build_message(tier, seed)
-            + corpus_extra.build_finite(tier, seed) + corpus_serde.build(tier, seed))
+            + corpus_extra.build_finite(tier, seed) + corpus_serde.build(tier, seed) + corpus_arb.build(tier, seed))
 
 
 def fam_of(r):
@@ -245,7 +245,47 @@ def check_c10(tier, seed):
                      "format:precondition-skip) pair.", guards)
 
 
-CHECKS = {"C04": check_c04, "C10": check_c10, "C01": check_c01, "C03": check_c03, "C06": check_c06, "C07": check_c07, "C11": check_c11, "C12": check_c12, "C13": check_c13, "C16": check_c16}
+def check_c09(tier, seed):
+    def guards(res, reports):
+        fams = {}
+        for r in reports:
+            f = fams.setdefault(fam_of(r), {"ok": 0, "err": 0})
+            f["ok"] += r["hist"].get("ok", 0)
+            f["err"] += r["hist"].get("arbitrary::Error", 0)
+        for fam in ("int", "float", "string", "other"):
+            res.guard("ok[%s]" % fam, fams.get(fam, {}).get("ok", 0), 1)
+        res.guard("result_equals_inclusive_bound", sum_guard(reports, "result_equals_inclusive_bound"), 1)
+        res.guard("declarations_with_several_values", sum(1 for r in reports if "ok:several-values" in r["classes"]), 50)
+    return ctor_flow("C09", tier, seed,
+                     "arbitrary corpus: integers (12 types x range sizes 1,2,255,256,257,65536 anchored at MIN/0/MAX x bound-kind combinations x literal/const/MIN-MAX spellings, "
+                     "expression bounds with <<, |, &, ^, +, -, *, as, if, fn calls, negated constants; sanitizer without validation), floats (one- and two-sided x inclusive/exclusive "
+                     "x with/without finite x magnitudes 1e-30..1e300, mixed sign, equal inclusive bounds, few-ulp ranges), strings (len_char_min/len_char_max/not_empty in every "
+                     "order x trim/lowercase/uppercase orders), other types; only declarations whose valid set is non-empty. Inputs: [], all 1- and 2-byte strings, boundary patterns of "
+                     "every length <= 64, encodings of special floats and case-expanding/whitespace code points (also truncated at every byte), seeded random inputs <= 128 bytes; "
+                     "thorough: all 2^32 4-byte inputs for 8 f32 generators. Oracle: reference model on the produced value (valid and a sanitisation fixed point); panics are "
+                     "violations; a call that makes no progress for 10 s is re-run alone and only a reproduced stall is a violation. A case is a (declaration, ok:several-values|"
+                     "ok:single-value|arbitrary::Error) pair.", guards)
+
+
+def check_c14(tier, seed):
+    def guards(res, reports):
+        sizes = set()
+        for r in reports:
+            for c in r["classes"]:
+                if c.startswith("range-size-"):
+                    sizes.add(int(c.split("-")[-1]))
+        for n in (1, 2, 256, 257, 65536):
+            res.guard("range_size_%d" % n, 1 if n in sizes else 0, 1)
+        res.guard("declarations", len(reports), 60)
+        res.extra["exhaustive_overall"] = True
+    return ctor_flow("C14", tier, seed,
+                     "integer declarations of the arbitrary corpus whose valid range has <= 2^16 elements (all 12 types; literal and expression bounds incl. shifts, |, &, ^, "
+                     "arithmetic, bounds at MIN/MAX); the generator consumes <= 2 bytes for such ranges, so [] and all 1- and 2-byte inputs exhaust its behaviour; produced set must "
+                     "equal the valid set (computed from Python-denoted bounds, cross-checked through try_new). A case is a (declaration, range-size-N) pair; exhaustive per declaration.",
+                     guards)
+
+
+CHECKS = {"C09": check_c09, "C14": check_c14, "C04": check_c04, "C10": check_c10, "C01": check_c01, "C03": check_c03, "C06": check_c06, "C07": check_c07, "C11": check_c11, "C12": check_c12, "C13": check_c13, "C16": check_c16}
 
 
 def run_check(prop, tier, seed):
